@@ -21,6 +21,10 @@ import (
 )
 
 type Engine struct {
+	fieldAlias map[string]string            // "pkg.T.old" -> "new": struct fields renamed since the baseline (matched by type)
+	localAlias map[string]map[string]string // function key -> old local / parameter / captured name -> new name
+	aliasUsed  map[string]bool              // function keys in which a heuristic alias was applied
+	loadWarnings []string // contract declarations that no longer match the code (reported as undecided where they matter)
 	repo      string
 	verif     string
 	prog      *ssa.Program
@@ -99,6 +103,7 @@ func NewEngine(repo, verif string) (*Engine, error) {
 			e.rebindContracts(base)
 			e.remapLoops(base)
 		}
+		e.computeAliases(verif)
 	}
 	e.computeEscapes()
 	if err := e.indexGuards(); err != nil {
@@ -232,11 +237,13 @@ func (e *Engine) indexGuards() error {
 	for _, g := range e.contracts.guards {
 		t := e.namedType(g.Struct)
 		if t == nil {
-			return fmt.Errorf("guarded: unknown type %s", g.Struct)
+			e.loadWarnings = append(e.loadWarnings, fmt.Sprintf("guarded: unknown type %s (declaration ignored)", g.Struct))
+			continue
 		}
 		st, ok := t.Underlying().(*types.Struct)
 		if !ok {
-			return fmt.Errorf("guarded: %s is not a struct", g.Struct)
+			e.loadWarnings = append(e.loadWarnings, fmt.Sprintf("guarded: %s is not a struct (declaration ignored)", g.Struct))
+			continue
 		}
 		muKey := g.Struct + "." + g.Mutex
 		if g.Class == "under" {
@@ -250,7 +257,8 @@ func (e *Engine) indexGuards() error {
 				}
 			}
 			if !found {
-				return fmt.Errorf("guarded: %s has no field %s", g.Struct, g.Mutex)
+				e.loadWarnings = append(e.loadWarnings, fmt.Sprintf("guarded: %s has no field %s (declaration ignored: the fields it protected are unchecked)", g.Struct, g.Mutex))
+				continue
 			}
 		}
 		for _, fname := range g.Fields {
@@ -264,7 +272,8 @@ func (e *Engine) indexGuards() error {
 				if _, ok := e.contracts.ghosts[gf.key]; ok {
 					gf.ghost = true
 				} else {
-					return fmt.Errorf("guarded: %s has no field %s", g.Struct, fname)
+					e.loadWarnings = append(e.loadWarnings, fmt.Sprintf("guarded: %s has no field %s (ignored)", g.Struct, fname))
+					continue
 				}
 			}
 			if !gf.ghost {
@@ -985,6 +994,10 @@ func sameShape(a, b Shape) bool {
 // if there is none, the contract is detached and everything it would have decided is undecided.
 // Re-binding is sound: a contract attached to the wrong function only makes obligations fail.
 func (e *Engine) rebindContracts(base map[string]Shape) {
+	var baseNames baselineNames
+	if data, err := os.ReadFile(filepath.Join(e.verif, "baseline_names.json")); err == nil {
+		json.Unmarshal(data, &baseNames)
+	}
 	nameSet := func(params, free []string) string {
 		all := append(append([]string{}, params...), free...)
 		sort.Strings(all)
@@ -1069,6 +1082,52 @@ func (e *Engine) rebindContracts(base map[string]Shape) {
 			sh := e.shapeOf(g)
 			if nameSet(sh.Params, sh.FreeVars) == want {
 				cands = append(cands, g)
+			}
+		}
+		if len(cands) != 1 && len(baseNames.Locals[key]) > 0 {
+			// second stage: the same multiset of parameter / captured-variable types (names may have changed)
+			typeOf := map[string]string{}
+			for _, nt := range baseNames.Locals[key] {
+				typeOf[nt[0]] = nt[1]
+			}
+			var wantT []string
+			for _, n := range append(append([]string{}, b.Params...), b.FreeVars...) {
+				wantT = append(wantT, typeOf[n])
+			}
+			sort.Strings(wantT)
+			cands = nil
+			for _, g := range fns {
+				if claimed[g] || !e.isRepoFn(g) || len(g.Blocks) == 0 {
+					continue
+				}
+				raw := rawFnName(g)
+				if !strings.HasPrefix(raw, pkg+".") {
+					continue
+				}
+				if other := e.contracts.funcs[raw]; other != nil && !pendingSet[raw] {
+					continue
+				}
+				if strings.Contains(raw, "$") && rootOf(raw) != rootOf(key) {
+					continue
+				}
+				if g.Signature.Results().Len() != b.Results {
+					continue
+				}
+				var gotT []string
+				for _, p := range g.Params {
+					gotT = append(gotT, types.TypeString(p.Type(), nil))
+				}
+				for _, fv := range g.FreeVars {
+					t := fv.Type()
+					if pt, ok := t.(*types.Pointer); ok {
+						t = pt.Elem()
+					}
+					gotT = append(gotT, types.TypeString(t, nil))
+				}
+				sort.Strings(gotT)
+				if len(gotT) > 0 && strings.Join(gotT, "|") == strings.Join(wantT, "|") {
+					cands = append(cands, g)
+				}
 			}
 		}
 		if len(cands) == 1 {
@@ -1262,4 +1321,211 @@ func (e *Engine) loopLabel(fn *ssa.Function, ord int) int {
 		return 2000 + ord // a loop the contract does not know
 	}
 	return ord
+}
+
+// ---------------------------------------------------------------------------------------------
+// Renamed locals, parameters, captured variables and struct fields. The baseline records the
+// names and types the contracts were written against; a name that has disappeared is resolved to the
+// new name of the same type that has appeared in its place (in order, when several of one type were
+// renamed). The resolution is heuristic: obligations that fail where it was used are undecided.
+
+type baselineNames struct {
+	Structs map[string][][2]string `json:"structs"`
+	Locals  map[string][][2]string `json:"locals"`
+}
+
+func (e *Engine) orderedLocals(fn *ssa.Function) [][2]string {
+	var out [][2]string
+	seen := map[string]bool{}
+	add := func(name string, t types.Type) {
+		if name == "" || name == "_" || seen[name] || t == nil {
+			return
+		}
+		seen[name] = true
+		out = append(out, [2]string{name, types.TypeString(t, nil)})
+	}
+	for _, p := range fn.Params {
+		add(p.Name(), p.Type())
+	}
+	for _, fv := range fn.FreeVars {
+		t := fv.Type()
+		if pt, ok := t.(*types.Pointer); ok {
+			t = pt.Elem()
+		}
+		add(fv.Name(), t)
+	}
+	for _, b := range fn.Blocks {
+		for _, in := range b.Instrs {
+			switch x := in.(type) {
+			case *ssa.DebugRef:
+				if obj := x.Object(); obj != nil {
+					if v, ok := obj.(*types.Var); ok && !v.IsField() && !(obj.Pkg() != nil && obj.Parent() == obj.Pkg().Scope()) {
+						add(obj.Name(), obj.Type())
+					}
+				}
+			case *ssa.Alloc:
+				if x.Comment != "" && x.Comment != "complit" && x.Comment != "varargs" && !strings.Contains(x.Comment, " ") {
+					add(x.Comment, x.Type().Underlying().(*types.Pointer).Elem())
+				}
+			}
+		}
+	}
+	return out
+}
+
+func (e *Engine) currentNames() baselineNames {
+	bn := baselineNames{Structs: map[string][][2]string{}, Locals: map[string][][2]string{}}
+	for k, fn := range e.fnByKey {
+		if e.isRepoFn(fn) && len(fn.Blocks) > 0 {
+			bn.Locals[k] = e.orderedLocals(fn)
+		}
+	}
+	for _, p := range e.pkgs {
+		if p.Types == nil || !e.repoPkgPaths[p.Types.Path()] {
+			continue
+		}
+		sc := p.Types.Scope()
+		for _, n := range sc.Names() {
+			tn, ok := sc.Lookup(n).(*types.TypeName)
+			if !ok {
+				continue
+			}
+			st, ok := tn.Type().Underlying().(*types.Struct)
+			if !ok {
+				continue
+			}
+			var fs [][2]string
+			for i := 0; i < st.NumFields(); i++ {
+				fs = append(fs, [2]string{st.Field(i).Name(), types.TypeString(st.Field(i).Type(), nil)})
+			}
+			bn.Structs[p.Types.Name()+"."+n] = fs
+		}
+	}
+	return bn
+}
+
+func aliasNames(base, cur [][2]string) map[string]string {
+	cn, bnm := map[string]bool{}, map[string]bool{}
+	for _, c := range cur {
+		cn[c[0]] = true
+	}
+	for _, b := range base {
+		bnm[b[0]] = true
+	}
+	missing := map[string][]string{}
+	added := map[string][]string{}
+	for _, b := range base {
+		if !cn[b[0]] {
+			missing[b[1]] = append(missing[b[1]], b[0])
+		}
+	}
+	for _, c := range cur {
+		if !bnm[c[0]] {
+			added[c[1]] = append(added[c[1]], c[0])
+		}
+	}
+	out := map[string]string{}
+	for t, ms := range missing {
+		as := added[t]
+		if len(as) == len(ms) {
+			for i := range ms {
+				out[ms[i]] = as[i]
+			}
+		}
+	}
+	return out
+}
+
+func (e *Engine) computeAliases(verif string) {
+	e.fieldAlias = map[string]string{}
+	e.localAlias = map[string]map[string]string{}
+	e.aliasUsed = map[string]bool{}
+	data, err := os.ReadFile(filepath.Join(verif, "baseline_names.json"))
+	if err != nil || os.Getenv("GOVC_NO_REBIND") != "" {
+		return
+	}
+	var base baselineNames
+	if json.Unmarshal(data, &base) != nil {
+		return
+	}
+	cur := e.currentNames()
+	for tk, bf := range base.Structs {
+		if cf, ok := cur.Structs[tk]; ok {
+			for o, n := range aliasNames(bf, cf) {
+				e.fieldAlias[tk+"."+o] = n
+			}
+		}
+	}
+	for fk, bl := range base.Locals {
+		if e.contracts.funcs[fk] == nil {
+			continue
+		}
+		if cl, ok := cur.Locals[fk]; ok {
+			if m := aliasNames(bl, cl); len(m) > 0 {
+				e.localAlias[fk] = m
+			}
+		}
+	}
+	// declarations that name fields: guards, lock levels, lock invariants, under-lock, trusted access
+	fa := func(typeKey, field string) string {
+		if n, ok := e.fieldAlias[typeKey+"."+field]; ok {
+			return n
+		}
+		return field
+	}
+	for _, g := range e.contracts.guards {
+		for i, f := range g.Fields {
+			g.Fields[i] = fa(g.Struct, f)
+		}
+		if g.Class == "mutex" {
+			g.Mutex = fa(g.Struct, g.Mutex)
+		} else if g.Class == "under" {
+			if k := strings.LastIndex(g.Mutex, "."); k > 0 {
+				g.Mutex = g.Mutex[:k] + "." + fa(g.Mutex[:k], g.Mutex[k+1:])
+			}
+		}
+	}
+	rekey := func(key string) string {
+		if k := strings.LastIndex(key, "."); k > 0 {
+			return key[:k] + "." + fa(key[:k], key[k+1:])
+		}
+		return key
+	}
+	nl := map[string]int{}
+	for k, v := range e.contracts.lockLevels {
+		nl[rekey(k)] = v
+	}
+	e.contracts.lockLevels = nl
+	ni := map[string]*LockInv{}
+	for k, v := range e.contracts.lockInvs {
+		nk := rekey(k)
+		if nk != k {
+			v.Mutex = nk[strings.LastIndex(nk, ".")+1:]
+		}
+		ni[nk] = v
+	}
+	e.contracts.lockInvs = ni
+	for _, fc := range e.contracts.funcs {
+		for i := range fc.UnderLock {
+			fc.UnderLock[i].Key = rekey(fc.UnderLock[i].Key)
+		}
+		if len(fc.TrustedAccess) > 0 {
+			nt := map[string]string{}
+			for k, v := range fc.TrustedAccess {
+				nt[rekey(k)] = v
+			}
+			fc.TrustedAccess = nt
+		}
+	}
+}
+
+// fieldNameFor resolves a field name used in a contract against the current struct.
+func (e *Engine) fieldNameFor(owner types.Type, name string) string {
+	if len(e.fieldAlias) == 0 || owner == nil {
+		return name
+	}
+	if n, ok := e.fieldAlias[shortTypeKey(owner)+"."+name]; ok {
+		return n
+	}
+	return name
 }
